@@ -22,6 +22,7 @@ import (
 type MicroSpec struct {
 	State string   `json:"state"` // queued | inflight | expired | requeued | held2 | deferred | defexp | ready | pausedq | tpausedq | none
 	Eph   bool     `json:"eph"`   // ephemeral topic and channel
+	EphCh bool     `json:"ephch,omitempty"` // ephemeral channel on a durable topic
 	MemQ  int64    `json:"memq"`
 	Ops   []string `json:"ops"`
 	Unbuf bool     `json:"unbuf,omitempty"` // consumers negotiate output_buffer_size -1
@@ -37,6 +38,9 @@ func (s MicroSpec) String() string {
 	e := "dur"
 	if s.Eph {
 		e = "eph"
+	}
+	if s.EphCh {
+		e = "ephch"
 	}
 	if s.Unbuf {
 		e += "/unbuf"
@@ -61,6 +65,8 @@ type microCtx struct {
 	prot     *protocolV2
 	c1, c2   *WConn
 	k1, k2   *clientV2
+	c3       *WConn    // the connection of op sub3, once its SUB was answered OK
+	k3       *clientV2 // ... and its server side
 	m1, m2   string // message ids
 	deliv    map[string][]int // id -> attempts of every delivery seen, in order
 	delivTo  map[string][]string
@@ -313,6 +319,9 @@ var microOps = map[string]func(x *microCtx) string{
 			return errStr(fmt.Errorf("%s", f.Data))
 		}
 		c.Cmd("RDY 1", nil)
+		if string(f.Data) == "OK" {
+			x.c3, x.k3 = c, x.client(c)
+		}
 		return string(f.Data)
 	},
 	"stats": func(x *microCtx) string {
@@ -373,6 +382,9 @@ func (x *microCtx) setup() string {
 	x.topic, x.ch = "t", "c"
 	if spec.Eph {
 		x.topic, x.ch = "t#ephemeral", "c#ephemeral"
+	}
+	if spec.EphCh {
+		x.topic, x.ch = "t", "c#ephemeral"
 	}
 	w, err := NewWorld(FreshDir(), WOpts{MemQ: spec.MemQ, NoLoops: true, MaxBytesPerFile: 4096, Verbose: spec.Trace, Mod: func(o *Options) {
 		if spec.Sync {
@@ -578,6 +590,7 @@ func RunMicro(spec MicroSpec) vx.Out {
 		return vx.Out{Obs: obs, Viol: x.viol}
 	}
 	x.checkRecreatedEmpty()
+	x.checkSurvivor()
 	// ---- state right after the window
 	if c := x.chanObj(); c != nil && !x.deleted && !x.tdeleted {
 		d := DumpChannel(c)
@@ -765,7 +778,7 @@ func (x *microCtx) fanoutProbe() {
 // once its last consumer has left - whatever happened before. Every connection is closed
 // now; at the next idle point neither may exist any more.
 func (x *microCtx) checkEphemeralGone() {
-	if !x.spec.Eph || x.exited {
+	if !(x.spec.Eph || x.spec.EphCh) || x.exited {
 		return
 	}
 	for _, c := range x.w.Conns {
@@ -778,7 +791,7 @@ func (x *microCtx) checkEphemeralGone() {
 		x.bad("C08 ephemeral channel still there after its last consumer left", "channel %s of topic %s exists with %d consumers (exiting=%v, depth %d) although every connection has been closed", x.ch, x.topic, len(c.clients), c.Exiting(), c.Depth())
 		return
 	}
-	if t := x.w.Topic(x.topic); t != nil && len(t.channelMap) == 0 {
+	if t := x.w.Topic(x.topic); t != nil && len(t.channelMap) == 0 && x.spec.Eph {
 		x.bad("C08 ephemeral topic still there after its last channel went", "topic %s exists with %d channels (exiting=%v) although every connection has been closed", x.topic, len(t.channelMap), t.Exiting())
 	}
 }
@@ -811,7 +824,7 @@ func (x *microCtx) watchRecreation() {
 			pubs++
 		}
 	}
-	if !del || x.spec.Eph {
+	if !del || x.spec.Eph || x.spec.EphCh {
 		return
 	}
 	n := x.w.N
@@ -841,6 +854,38 @@ func (x *microCtx) watchRecreation() {
 				x.bad("C08 channel re-created around its deletion does not start empty", "a new channel %s:%s exists in place of the one being deleted and its queue holds %d message(s) with %d publish(es) in the window: it was opened on what the old channel left", x.topic, x.ch, d, pubs)
 			}
 		}
+	}
+}
+
+// checkSurvivor (C08): an explicit delete takes the channel it names - the object that
+// existed then - and its consumers. A consumer whose SUB was answered OK on a channel object
+// created AFTER that (same name, re-created) has not left and nobody asked to delete its
+// channel: at the idle point after the window it is still subscribed and its channel exists.
+// (Scenarios in which a consumer leaves an ephemeral channel by itself are exempt: there the
+// asynchronous auto-delete goes by name and may take a newcomer with it.)
+func (x *microCtx) checkSurvivor() {
+	if x.c3 == nil || x.k3 == nil || x.exited || x.spec.Eph {
+		// (an ephemeral TOPIC whose last channel was deleted is itself auto-deleted, later and
+		// by name: a channel re-created in between goes with it)
+		return
+	}
+	dels := 0
+	for _, o := range x.spec.Ops {
+		if strings.HasPrefix(o, "disc") || strings.HasPrefix(o, "rdydisc") || o == "del_topic" || o == "exit" {
+			return
+		}
+		if o == "del_ch" {
+			dels++
+		}
+	}
+	ch := x.k3.Channel
+	if dels != 1 || ch == nil || ch == x.oldCh {
+		return
+	}
+	x.c3.Poll()
+	cur := x.chanObj()
+	if ch.Exiting() || x.c3.Closed || cur != ch {
+		x.bad("C08 channel re-created after a delete was deleted although nobody asked for it and its consumer never left", "consumer c3 subscribed (OK) to a channel %s created after the deleted one; at the idle point after the window that channel is exiting=%v, registered in the topic=%v, c3 closed by nsqd=%v", ch.name, ch.Exiting(), cur == ch, x.c3.Closed)
 	}
 }
 
@@ -885,7 +930,7 @@ func (x *microCtx) checkRecreatedEmpty() {
 // checkDeletedFiles (C08): once a channel / topic has been deleted and does not exist (again)
 // at the idle point after the window, none of its disk-queue files is left behind.
 func (x *microCtx) checkDeletedFiles() {
-	if !(x.deleted || x.tdeleted) || x.spec.Eph {
+	if !(x.deleted || x.tdeleted) || x.spec.Eph || x.spec.EphCh {
 		return
 	}
 	ents, err := stdos.ReadDir(x.w.Dir)
@@ -994,7 +1039,7 @@ func (x *microCtx) oracle() {
 	}
 	// (a) no loss: without a discarding operation, every message that was not FIN-accepted
 	// in the window ends up delivered (and FINed) in the drain
-	if !discardOp && !spec.Eph {
+	if !discardOp && !spec.Eph && !spec.EphCh {
 		want := 2
 		if spec.State == "none" || spec.State == "ready" {
 			want = 0
@@ -1113,7 +1158,7 @@ func (x *microCtx) oracle() {
 		}
 	}
 	// (j) delete removes the files and disconnects the consumers
-	if (x.deleted || x.tdeleted) && !spec.Eph {
+	if (x.deleted || x.tdeleted) && !spec.Eph && !spec.EphCh {
 		if !x.c1.Closed && !hasOp("disc1") {
 			// consumer connections of a deleted channel are closed
 			x.c1.Poll()
@@ -1192,7 +1237,7 @@ func (x *microCtx) afterRestart() {
 	x.afterRst = map[string][]int{}
 	// the topic and the channel existed (non-ephemeral) before the shutdown was requested and
 	// nothing deleted them: they exist again, before any consumer re-creates them
-	if !x.spec.Eph && !x.deleted && !x.tdeleted {
+	if !x.spec.Eph && !x.spec.EphCh && !x.deleted && !x.tdeleted {
 		if w2.Topic(x.topic) == nil {
 			x.bad("C05 topic missing after restart", "topic %s existed when shutdown was requested; after the restart nsqd has topics %v", x.topic, topicNamesOf(w2))
 		} else if w2.Channel(x.topic, x.ch) == nil {
